@@ -104,6 +104,16 @@ extern "C" void c20trace_run()
     SimTag tag(SIM_TAG_SUT);
     rec = new TraceRecorder();
   }
+  auto save = [&]() {
+    SimTag tag(SIM_TAG_SUT);
+    const char *pn = p->process_name ? "rksim-process" : nullptr;
+    if (p->global_api)
+      rkcommon::tracing::saveLog(c20_path(), pn);
+    else
+      rec->saveLog(c20_path(), pn);
+  };
+  if (p->extra_save == 2)
+    save();  // a log saved before anything was recorded; saving must not change what later saves contain
   std::vector<std::thread> ths;
   int first = p->t0_records ? 1 : 0;
   for (int t = first; t < p->nthreads; t++) {
@@ -117,14 +127,9 @@ extern "C" void c20trace_run()
     record(rec, 0);
   for (auto &t : ths)
     t.join();
-  {
-    SimTag tag(SIM_TAG_SUT);
-    const char *pn = p->process_name ? "rksim-process" : nullptr;
-    if (p->global_api)
-      rkcommon::tracing::saveLog(c20_path(), pn);
-    else
-      rec->saveLog(c20_path(), pn);
-  }
+  if (p->extra_save)
+    save();
+  save();
   c20t_saved();
   if (rec) {
     SimTag tag(SIM_TAG_SUT);
@@ -214,6 +219,10 @@ extern "C" void c20img_run()
   int n = c20i_count();
   if (n <= 1) {
     write_one(c20i_plan_n(0), c20_path_n(0));
+  } else if (c20i_one_after_another()) {
+    // a process that writes several images, of different sizes and formats, in a row
+    for (int i = 0; i < n; i++)
+      write_one(c20i_plan_n(i), c20_path_n(i));
   } else {
     // every thread writes its own image to its own file
     std::vector<std::thread> ths;
